@@ -291,6 +291,14 @@ def report(mod, prop, tier, seed, units, results, extra, t0, origin, args):
                  "native": True, "replay": e.get("replay")})
         extra_summ.append({k: e[k] for k in e if k not in ("replay",)})
 
+    # ---- a check may weigh its own obligations against each other (a sufficient condition that failed, next to a
+    # witness search that found nothing, is undecided - not a violation)
+    if hasattr(mod, "adjudicate"):
+        mod.adjudicate(failed, undecided, obligations, extra)
+    else:
+        engine.adjudicate_stores(prop, failed, undecided, obligations, extra,
+                                 "no other obligation of the property fails (keeping state is not by itself a violation of it)")
+
     # ---- replay failures, classify against known findings
     unit_by_name = {u.name: u for u in units}
     violations = []
